@@ -21,10 +21,14 @@ func init() {
 		call(fr.i, fr, 0, args[1], nil)
 		return nil
 	}
-	nop := func(fr *frame, args []value) value { return nil }
-	for _, n := range []string{"(*sync.Mutex).Lock", "(*sync.Mutex).Unlock", "(*sync.RWMutex).Lock", "(*sync.RWMutex).Unlock", "(*sync.RWMutex).RLock", "(*sync.RWMutex).RUnlock"} {
-		externals[n] = nop
-	}
+	// Mutexes: no-ops under the default cooperative scheduler (a goroutine is switched out only where it blocks
+	// on a channel); real lock state + schedule decision points in the schedule-exploring mode (schednondet.go).
+	externals["(*sync.Mutex).Lock"] = func(fr *frame, args []value) value { mutexOp(args[0].(*value), mLock); return nil }
+	externals["(*sync.Mutex).Unlock"] = func(fr *frame, args []value) value { mutexOp(args[0].(*value), mUnlock); return nil }
+	externals["(*sync.RWMutex).Lock"] = func(fr *frame, args []value) value { mutexOp(args[0].(*value), mLock); return nil }
+	externals["(*sync.RWMutex).Unlock"] = func(fr *frame, args []value) value { mutexOp(args[0].(*value), mUnlock); return nil }
+	externals["(*sync.RWMutex).RLock"] = func(fr *frame, args []value) value { mutexOp(args[0].(*value), mRLock); return nil }
+	externals["(*sync.RWMutex).RUnlock"] = func(fr *frame, args []value) value { mutexOp(args[0].(*value), mRUnlock); return nil }
 	externals["crypto/sha256.Sum256"] = func(fr *frame, args []value) value {
 		a := args[0].([]value)
 		out := make(array, 32)
